@@ -4,6 +4,9 @@ import MosnVerif.Lemmas.StageManager
 import MosnVerif.Lemmas.H2GoAway
 import MosnVerif.Lemmas.ShutdownVirtual
 import MosnVerif.Lemmas.TransferLookup
+import MosnVerif.Lemmas.UpgTiming
+import MosnVerif.Lemmas.UpgHandshake
+import MosnVerif.Lemmas.HandoverQueue
 /-!
 # C11 — graceful shutdown and hot upgrade lose no requests (property theorems only; level `other`)
 
@@ -433,5 +436,134 @@ example : (smRun (smInit false)
     = [1, 2, 3, 4, 5, 6, 13, 6, 8, 9, 10, 11] := by decide
 -- without the guard the claim is false: an Upgrade notice during start-up lets the state go down again
 example : ¬ monoRev (smRun (smInit false) [.boot none false false, .boot none false false, .notice actUpgrade none false, .boot none false false]).hist := by decide
+
+
+/-! ## hot upgrade: long-lived connections are handed over before the old process exits -/
+section UpgTimingProps
+open MosnVerif.Model.UpgTiming MosnVerif.Gen.UpgTiming
+
+/-- **start_aligns_transfer_timeout**: on EVERY start path (cold or inherited; `setOnStart` is the regenerated path
+condition of the call in `Mosn.TransferConnection`) and for every configured graceful_timeout (0 = absent),
+`network.TransferTimeout` ends up equal to `server.GracefulTimeout`. -/
+theorem start_aligns_transfer_timeout (inherited : Bool) (cfg : Nat) :
+    transferTimeoutAfterStart inherited cfg = graceful cfg :=
+  transferTimeout_eq_graceful inherited cfg
+
+/-- **handover_before_exit**: for every graceful timeout (unbounded), every read timeout `R`, every start path and
+every random draw `r` of the read loop, a transferable connection is handed over strictly before the old process's
+exit timer `WaitConnectionsDone(GracefulTimeout)` fires — even when the stop signal and the expiry of the hand-over
+timer are each noticed a full read timeout late. -/
+theorem handover_before_exit (inherited : Bool) (cfg R r : Nat)
+    (hr : r < randBound (transferTimeoutAfterStart inherited cfg)) :
+    handoverLatest (transferTimeoutAfterStart inherited cfg) r R < lifetime (graceful cfg) R := by
+  rw [transferTimeout_eq_graceful] at *
+  unfold handoverLatest lifetime transferInstant waitConnectionsDone
+  unfold randBound at hr
+  omega
+
+example : (5 : Nat) < randBound (transferTimeoutAfterStart false 5000) := by decide
+example : handoverLatest (transferTimeoutAfterStart false 5000) 4999 15000 = 39999 ∧ lifetime (graceful 5000) 15000 = 40000 := by decide
+
+/-- the executable form used by the driver agrees: every start fits -/
+theorem start_fits (inherited : Bool) (cfg R : Nat) :
+    fits (transferTimeoutAfterStart inherited cfg) (graceful cfg) R = true := by
+  have hp := graceful_pos cfg
+  rw [transferTimeout_eq_graceful]
+  unfold fits handoverLatest lifetime transferInstant waitConnectionsDone randBound
+  simp
+  omega
+
+/-- **default_schedule_misses_exit** (negation witness for a start that leaves the 30 s default in place): with a
+graceful timeout below 15 s some draw of the read loop lands at or after the exit even if nothing is noticed late. -/
+theorem default_schedule_misses_exit (g : Nat) (hg : g < 15000) :
+    ∃ r, r < randBound defaultTransferTimeoutMs ∧
+      lifetime g defaultConnReadTimeoutMs ≤ transferInstant defaultTransferTimeoutMs r := by
+  refine ⟨2 * g, ?_, ?_⟩ <;>
+    simp only [randBound, defaultTransferTimeoutMs, lifetime, waitConnectionsDone, defaultConnReadTimeoutMs, transferInstant] <;> omega
+
+example : fits defaultTransferTimeoutMs 5000 defaultConnReadTimeoutMs = false := by decide
+
+end UpgTimingProps
+
+/-! ## hot upgrade: writes issued while a connection is being handed over -/
+section HandoverQueueProps
+open MosnVerif.Model.HandoverQueue MosnVerif.Gen.HandoverQueue
+
+/-- **handover_writes_preserved**: for EVERY sequence of writes the old process issues on a connection that is being
+handed over (any number, far beyond the queue's capacity) and EVERY schedule of the writer and the forwarding loop
+(including any number of writer turns before the loop has started: the window before `transferRead` returned), with
+the enqueue form and the capacity regenerated from `writeDirectly`: no write is given up, and what was forwarded to
+the new process, what is queued and what the writer has not yet written is, in this order, exactly the writer's
+sequence.  Assumption of the `blockingTimeout` form: the forwarding loop starts before the timer fires. -/
+theorem handover_writes_preserved {α : Type} (ws : List α) (sched : List MosnVerif.Model.HandoverQueue.Ev) :
+    (runG ws sched).forwarded ++ (runG ws sched).queue ++ (runG ws sched).pending = ws ∧ (runG ws sched).dropped = [] :=
+  run_inv enqueueMode (by decide) writeBufferCap ws sched { pending := ws } ⟨by simp, rfl⟩
+
+/-- hence: once the writer is through and the queue is empty, the new process received all writes, in order -/
+theorem handover_writes_complete {α : Type} (ws : List α) (sched : List MosnVerif.Model.HandoverQueue.Ev)
+    (hp : (runG ws sched).pending = []) (hq : (runG ws sched).queue = []) : (runG ws sched).forwarded = ws := by
+  have h := (handover_writes_preserved ws sched).1
+  rw [hp, hq] at h
+  simpa using h
+
+/-- non-vacuous: 10 writes in the window (8 fit, the 9th waits), then the loop runs — all arrive -/
+example : (runG (List.range 10) (harnessWindow 10 ++ harnessRest 10)).pending = []
+    ∧ (runG (List.range 10) (harnessWindow 10 ++ harnessRest 10)).queue = []
+    ∧ (runG (List.range 10) (harnessWindow 10 ++ harnessRest 10)).forwarded = List.range 10 := by decide
+example : ((runG (List.range 17) (harnessWindow 17)).queue.length, (runG (List.range 17) (harnessWindow 17)).pending.length) = (8, 9) := by decide
+
+/-- negation witness for the give-up-when-full enqueue: the 9th write of the window is lost -/
+example : (run .dropWhenFull 8 { pending := List.range 9 } (harnessWindow 9 ++ harnessRest 9)).dropped = [8]
+    ∧ (run .dropWhenFull 8 { pending := List.range 9 } (harnessWindow 9 ++ harnessRest 9)).forwarded = List.range 8 := by decide
+
+end HandoverQueueProps
+
+/-! ## hot upgrade: the hand-shake never leaves a listener without an acceptor -/
+section UpgHandshakeProps
+open MosnVerif.Model.UpgHandshake MosnVerif.Gen.UpgHandshake
+
+/-- **upgrade_always_one_acceptor**: with the old process's step order regenerated from `ReconfigureHandler` and the
+new process's ack deadline / give-up rule from `transferConnectionHandler`: for EVERY drain time (unbounded), EVERY set
+of requests in flight (their remaining durations), every instant `tReady` at which the new process reports ready, every
+length of `WaitConnectionsDone` and EVERY instant `t`, the old or the new process accepts on the shared listeners. -/
+theorem upgrade_always_one_acceptor (tReady drainTime wd : Nat) (inflight : List Nat) (t : Nat) :
+    oldAccepts (upgrade tReady drainTime inflight wd) t = true ∨
+      newAccepts (upgrade tReady drainTime inflight wd) tReady t = true := by
+  unfold upgrade
+  rw [upgrade_eq]
+  by_cases h : tReady ≤ readyDeadlineMs
+  · simp only [h, if_true, oldAccepts, newAccepts, gaveUpAt, newGivesUpWithoutAck, newAcceptsBeforeReady, ackDeadlineMs]
+    by_cases ht : t < tReady + 3000
+    · left; simp [ht]
+    · right; simp; omega
+  · left; simp [h, oldAccepts]
+
+/-- **new_never_gives_up**: when the old process is healthy (the ready byte arrives within its read deadline) the new
+process gets its ack in time, whatever the drain takes -/
+theorem new_never_gives_up (tReady drainTime wd : Nat) (inflight : List Nat) (h : tReady ≤ readyDeadlineMs) :
+    gaveUpAt (upgrade tReady drainTime inflight wd) tReady = none := by
+  unfold upgrade
+  rw [upgrade_eq]
+  simp [h, gaveUpAt, ackDeadlineMs]
+
+/-- the ack is written before `stopAccept`, and the old process exits only after the drain and `WaitConnectionsDone` -/
+theorem ack_before_stop_accept (tReady drainTime wd : Nat) (inflight : List Nat) (h : tReady ≤ readyDeadlineMs) :
+    ∃ a s e, (upgrade tReady drainTime inflight wd).ackAt = some a ∧ (upgrade tReady drainTime inflight wd).stopAt = some s ∧
+      (upgrade tReady drainTime inflight wd).exitAt = some e ∧ a ≤ s ∧ s + shutdownDur drainTime inflight + wd ≤ e := by
+  unfold upgrade
+  rw [upgrade_eq]
+  simp [h]
+
+example : (200 : Nat) ≤ readyDeadlineMs := by decide
+example : (upgrade 200 15000 [20000, 40] 60000).stopAt = some 3200 ∧ (upgrade 200 15000 [20000, 40] 60000).exitAt = some 78200 := by decide
+
+/-- negation witness (shutdown before the ack, drain longer than the ack deadline): the new process gives up while the
+old one is already deaf — at that instant nobody accepts -/
+example :
+    let o := runOld [.sendListeners, .readReady, .stopService, .shutdown, .writeAck, .sleep 3000, .waitDone, .exit]
+      100 (shutdownDur 5000 [20000]) 60000
+    gaveUpAt o 100 = some 3100 ∧ oldAccepts o 3100 = false ∧ newAccepts o 100 3100 = false := by decide
+
+end UpgHandshakeProps
 
 end MosnVerif.Props.C11
